@@ -27,6 +27,8 @@ type cliCmd struct {
 	Env   []string
 	// Collect returns the bytes to compare besides stdout.
 	Collect func(w *clih.Work) string
+	// Expect judges the baseline output itself ("" = fine): identical but wrong output is no comfort.
+	Expect func(out string) string
 }
 
 var cliDDL = []string{
@@ -128,6 +130,49 @@ func cliCmds() []cliCmd {
 		}, Args: func(w *clih.Work) []string {
 			return []string{"migrate", "lint", "--dir", "file://" + w.Path("migrations"), "--dev-url", "sqlite://dev?mode=memory", "--latest", "2", "--format", "{{ json .Files }}"}
 		}},
+		{Name: "migrate apply --dry-run --env (two template_dir data sources over one template path)", Setup: func(w *clih.Work) error {
+			os.MkdirAll(w.Path("tmpl"), 0o755)
+			os.WriteFile(w.Path("tmpl", "1.sql"), []byte("CREATE TABLE {{ .name }}_t (id integer);\n"), 0o644)
+			cfg := fmt.Sprintf(`data "template_dir" "alpha" {
+  path = %q
+  vars = {
+    name = "alpha"
+  }
+}
+data "template_dir" "beta" {
+  path = %q
+  vars = {
+    name = "beta"
+  }
+}
+locals {
+  dirs = {
+    a = data.template_dir.alpha.url
+    b = data.template_dir.beta.url
+  }
+}
+env "a" {
+  url = %q
+  migration {
+    dir = local.dirs.a
+  }
+}
+env "b" {
+  url = %q
+  migration {
+    dir = local.dirs.b
+  }
+}
+`, w.Path("tmpl"), w.Path("tmpl"), w.URL("a.sqlite"), w.URL("b.sqlite"))
+			return os.WriteFile(w.Path("atlas.hcl"), []byte(cfg), 0o644)
+		}, Args: func(w *clih.Work) []string {
+			return []string{"migrate", "apply", "--env", "a", "-c", "file://" + w.Path("atlas.hcl"), "--dry-run"}
+		}, Expect: func(out string) string {
+			if !strings.Contains(out, "alpha_t") || strings.Contains(out, "beta_t") {
+				return "env a must run the directory rendered with name=alpha (CREATE TABLE alpha_t), not the other data source's rendering"
+			}
+			return ""
+		}},
 		{Name: "migrate apply --dry-run", Setup: func(w *clih.Work) error {
 			return w.WriteDir("migrations", map[string]string{"1_a.sql": strings.Join(cliDDL[:4], ";\n") + ";\n", "2_b.sql": strings.Join(cliDDL[4:], ";\n") + ";\n"})
 		}, Args: func(w *clih.Work) []string {
@@ -227,6 +272,11 @@ func cliPass(r *report.Run, thorough bool) int {
 		}
 		if !j.real && j.h == 0 && j.s == 0 {
 			base[j.cmd] = outs[i]
+			if e := cmds[j.cmd].Expect; e != nil {
+				if msg := e(outs[i]); msg != "" {
+					r.Violate("", fmt.Sprintf("CLI `%s`: %s: %s", cmds[j.cmd].Name, msg, truncN(outs[i], 500)), map[string]any{"cli_cmd": cmds[j.cmd].Name})
+				}
+			}
 			if !strings.HasPrefix(outs[i], "exit=0") && !strings.Contains(cmds[j.cmd].Name, "lint") {
 				r.Violate("", fmt.Sprintf("harness: CLI command %q does not succeed: %s", cmds[j.cmd].Name, truncN(outs[i], 600)), nil)
 			}
